@@ -50,6 +50,15 @@ CHECKS.update({
             "Per copy: handler executions, byte-identical repetition of the first ACK (or silence), independence of endpoints, re-processing after expiry.",
             TB + "EXCHANGE_LIFETIME (247 s) is computed from RFC defaults in the model, not read from the library.",
             "DESIGN.md 6/C04"),
+    "C09": ("model_checking", E1 + "; differential isolation runs",
+            "On the real UDP server stack every handler outcome (returns with/without code and payload, every "
+            "ConstructionRenderableError subclass with/without text, foreign exceptions incl. ones that merely quack like renderable "
+            "errors, wrong return types, failing error renderers) x fast/slow x methods x CON/NON, and the three dispatch failures, is "
+            "executed once; the final responses carrying the token are counted on the wire and compared with the expected code/payload; "
+            "a secret marker must never appear on the wire. Failing requests placed before/during/after well-behaved neighbours (same "
+            "or other peer) must leave the neighbours' responses identical to the run without them; a superseding request on a reused token is still answered.",
+            TB + "Peer ACKs separate responses immediately.",
+            "DESIGN.md 6/C09"),
     "C10": ("model_checking", E1 + " (the RFC 7252 s.4.2/4.3 + RFC 7967 reaction table), plus all ordered pairs of a sub-table",
             "A real context that is client (one pending, already ACKed request) and server (handlers of duration 0, EMPTY_ACK_DELAY-/+1ms, "
             "0.5 s) receives every cell of type x code class x token known/unknown x source x unicast/multicast local address x "
